@@ -2,6 +2,7 @@ SPECIFICATION Spec
 CONSTANTS
   Alphabet = {10, 32, 35, 36, 39, 49, 97}
   N = 7
+  Prefixes <- PrefixesNone
 INVARIANTS Lossless OneEofLast NonEmptyNonBlankStart Emit
 PROPERTIES Progress
 CHECK_DEADLOCK FALSE
